@@ -14,6 +14,7 @@ import contextlib
 import itertools
 import json
 import os
+import shutil
 import sys
 
 import numpy as np
@@ -369,9 +370,9 @@ def real_problem(rng):
             {l: np.where(hi[l], n_cells[l], 0) for l in leaves},
             {l: np.where(hi[l], n_cells[l], 0) for l in leaves})
 
-    def writer(prob, d):
+    def produce(d):
         stats = stats_writer(d)
-        tt = impl_tree(prob)
+        tt = impl_tree(shell)
         sub = d / 'fm_tmp'
         sub.mkdir()
         with silent():
@@ -379,18 +380,15 @@ def real_problem(rng):
                 precomputed_stats_path=stats, taxonomy_tree=tt,
                 output_path=d / 'ref.h5', n_processors=2, tmp_dir=str(sub),
                 max_gb=1)
-        import shutil
         shutil.rmtree(sub, ignore_errors=True)
-        with h5py.File(d / 'ref.h5', 'a') as f:
-            f.create_dataset('metadata', data=json.dumps(
-                {'precomputed_path': str(stats)}).encode('utf-8'))
-        return stats, d / 'ref.h5'
+        return d / 'ref.h5'
 
     shell = SelProblem(tree, names, [[] for _ in range(len(leaves) * (len(leaves) - 1) // 2)],
                        [[] for _ in range(len(leaves) * (len(leaves) - 1) // 2)],
                        names, 1)
     with pipeline.workdir('c12_') as d:
-        _, ref = writer(shell, d)
+        ref = produce(d)
+        ref_bytes = ref.read_bytes()
         with h5py.File(ref, 'r') as f:
             gene_names = json.loads(f['gene_names'][()].decode('utf-8'))
             p2i = json.loads(f['pair_to_idx'][()].decode('utf-8'))
@@ -400,6 +398,17 @@ def real_problem(rng):
                 ix = f['sparse_by_pair/%s_gene_idx' % nm][()].astype(int)
                 tabs[nm] = [sorted(int(x) for x in ix[ip[i]:ip[i + 1]])
                             for i in range(len(ip) - 1)]
+
+    def writer(prob, d):
+        """the very file find_markers produced (bytes), plus the metadata
+        dataset the reference-marker CLI adds"""
+        stats = stats_writer(d)
+        (d / 'ref.h5').write_bytes(ref_bytes)
+        with h5py.File(d / 'ref.h5', 'a') as f:
+            f.create_dataset('metadata', data=json.dumps(
+                {'precomputed_path': str(stats)}).encode('utf-8'))
+        return stats, d / 'ref.h5'
+
     # the file's pair numbering must be the one SelProblem assumes
     for (a, b), i in shell.pair_idx.items():
         assert p2i[leaf_level][a][b] == i
